@@ -108,6 +108,18 @@ class Snap:
                     self.covered.add((x, y))
         self.live = [list(r) for r in t.get_values()]
         self.size = tuple(t.size)
+        # the same table seen cell by cell through coordinates (this route keeps row wrappers in a cache):
+        # the last three rows, every span origin and a diagonal
+        probe = {(x, y) for y in range(max(self.H - 3, 0), self.H) for x in range(min(self.W, 6))}
+        probe |= set(list(self.spans)[:6]) | set(list(self.covered)[:6]) | {(i, i) for i in range(min(self.W, self.H, 4))}
+        self.coord = {}
+        for x, y in sorted(probe):
+            if x < self.W and y < self.H:
+                try:
+                    c = t.get_cell((x, y))
+                    self.coord[(x, y)] = (t.get_value((x, y)), bool(c.is_spanned()))
+                except Exception as e:
+                    self.coord[(x, y)] = ("raised", repr(e))
 
     def live_agrees(self):
         exp = [[c["v"] for c in row] + [None] * (self.W - len(row)) for row in self.rows]
@@ -117,6 +129,16 @@ class Snap:
             return "row wider than declared columns"
         if not TL.matrix_equal(self.live, exp):
             return "get_values differs from the XML expansion"
+        for (x, y), (v, sp) in self.coord.items():
+            row = self.rows[y]
+            c = row[x] if x < len(row) else {"v": None, "cspan": None, "rspan": None, "covered": False}
+            if v == "raised":
+                return f"get_cell/get_value({x},{y}) raised {sp}"
+            if not TL.values_equal(v, c["v"]):
+                return f"get_value(({x},{y})) = {v!r}, the XML holds {c['v']!r}"
+            xsp = bool(c["cspan"] is not None or c["rspan"] is not None or c["covered"])
+            if sp != xsp:
+                return f"get_cell(({x},{y})).is_spanned() = {sp}, the XML says {xsp}"
         return None
 
 
@@ -356,7 +378,7 @@ def replay(case):
 
 
 MANIFEST = {
-    "text": "Exploration by runtime monitoring: generated tables (ragged, styled empties, trailing empties, repeated last rows, spans) are driven through random compositions of the whole-table transformations; around every transformation a law monitor compares value, style and span censuses taken by an independent lxml expansion of the serialisation before and after (transpose involution, strip/optimize preservation and idempotence, span exactness/refusal/restoration, CSV round trip), and checks live get_values against the expansion. Held = no law broken on the compositions observed.",
+    "text": "Exploration by runtime monitoring: generated tables (ragged, styled empties, trailing empties, repeated last rows, spans) are driven through random compositions of the whole-table transformations; around every transformation a law monitor compares value, style and span censuses taken by an independent lxml expansion of the serialisation before and after (transpose involution, strip/optimize preservation and idempotence, span exactness/refusal/restoration, CSV round trip), and checks live get_values, and get_value / get_cell().is_spanned() by coordinates on the last rows, span origins and a diagonal, against the expansion. Held = no law broken on the compositions observed.",
     "note": "Trusted: vf/oracles/tabxml.py expand_full; the stated laws (DESIGN C17). Non-square area transposes (documented lossy) and CSV-ambiguous values are not generated.",
     "technique": "runtime monitoring: before/after law monitors over an independent census of the produced XML",
 }
